@@ -905,6 +905,53 @@ def check_clear_cursor_at(prog, c, child_rel, r, root_rel, h, body):
     return None
 
 
+def counted_scan_bounds(prog, b, child_rel, r):
+    """`let mut i = lo; while i < hi { let index = free[i]; ..; i += 1 }`: (lo, hi) of the positions scanned, else None"""
+    from rules.gate import edge_truth
+    nf = prog.node_field(strip(child_rel[0][2]))
+    if nf is None:
+        return None
+    pos = None
+    for x in walk(strip(nf[0])):
+        if x.kind == 'call' and x.callee_name() in ('index', 'index_mut', 'get_unchecked') and len(x.args) == 2 and (vec_field_of(prog, x.args[0]) or ())[-1:] == r['free'][-1:]:
+            pos = strip(x.args[1])
+    if pos is None or pos.kind != 'phi':
+        return None
+    h = pos.extra['block']
+    loops = b.cfg.loops()
+    if h not in loops:
+        return None
+    body = loops[h]
+    inits = [strip(a) for a, p in zip(pos.args, pos.extra['preds']) if p not in body]
+    steps = [unover(a) for a, p in zip(pos.args, pos.extra['preds']) if p in body]
+    if len(inits) != 1 or not steps:
+        return None
+    for st in steps:
+        if not (st.kind == 'bin' and st.args[0].startswith('Add') and unover(st.args[1]) is pos and strip(st.args[2]).is_const(1)):
+            return None
+    d = b.switch_discr.get(h)
+    if d is None:
+        return None
+    d = strip(d)
+    if d.kind != 'bin':
+        return None
+    x, y = strip(d.args[1]), strip(d.args[2])
+    t = b.mir['blocks'][h]['term']
+    stay = None
+    for succ in b.cfg.succ[h]:
+        tr = edge_truth(t, succ)
+        if tr is not None and succ in body:
+            stay = tr
+    if stay is None:
+        return None
+    rel = d.args[0] if stay else {'Gt': 'Le', 'Ge': 'Lt', 'Lt': 'Ge', 'Le': 'Gt'}.get(d.args[0])
+    if rel == 'Lt' and x is pos:
+        return (inits[0], y)
+    if rel == 'Gt' and y is pos:
+        return (inits[0], x)
+    return None
+
+
 def check_clear_counter(prog, c, child_rel, r):
     """the pass counter n: reset to 0 per pass, +1 per release; the pass scans free[len-n .. len)"""
     b = c.body
@@ -914,8 +961,12 @@ def check_clear_counter(prog, c, child_rel, r):
         if v.kind == 'agg' and v.extra.get('path', '').endswith('Range') and len(v.args) == 2:
             rng = v
     if rng is None:
-        return 'no index range over the free list'
-    lo, hi = strip(rng.args[0]), strip(rng.args[1])
+        cb = counted_scan_bounds(prog, b, child_rel, r)
+        if cb is None:
+            return 'no index range over the free list'
+        lo, hi = cb
+    else:
+        lo, hi = strip(rng.args[0]), strip(rng.args[1])
     if lo.kind == 'load' and lo.fields() == ('0',):
         lo = strip(lo.args[0])
     if not (hi.kind == 'call' and hi.callee_name() == 'len' and vec_field_of(prog, hi.args[0]) == tuple(['store'] + list(r['free'])) or (hi.kind == 'call' and hi.callee_name() == 'len' and (vec_field_of(prog, hi.args[0]) or ())[-1:] == r['free'][-1:])):
